@@ -116,29 +116,33 @@ def decoder_zero_count_rule(prog, rep, RULE='R13.4'):
                 nz_edges.append((bl.idx, r[2], None))
         # the decoder reports NeedsMoreOutput only when the output window it was given is full: the count is then the window size, which is 0
         # only for an empty buffer or at the per-block cap (trusted brotli semantics, listed in TRUSTED)
-        full_arm = None
+        # ... so the paths are walked once per other outcome of the step, every `match` / `matches!` on the decoder's result restricted to that outcome
+        res_switches = []
         for sbb, si in arm_of_enum_switch(prog, body):
-            if 'BrotliResult' in (si['adt'] or ''):
-                full_arm = (sbb, enum_arm_target(si, 'NeedsMoreOutput'))
+            if 'BrotliResult' in (si['adt'] or '') and d.idx in origins(body, [si['place'][0]], through_calls=False).calls:
+                res_switches.append((sbb, si))
+        outcomes = [None]
+        if res_switches:
+            names = set()
+            for sbb, si in res_switches:
+                names |= set(si['arms']) | set(si['rest'])
+            outcomes = sorted(names - {'NeedsMoreOutput'})
         unguarded = []
         for (bb, i, l) in oks:
-            if full_arm and full_arm[1] is not None and body.edge_dominates(full_arm, bb):
-                continue
             rel = [(sb, t) for sb, t, cl in nz_edges if cl is None or l is None or cl in origins(body, [l], through_calls=False).locals or l in origins(body, [cl], through_calls=False).locals]
-            # is the Ok block reachable from the decoder without crossing one of those edges?
-            cut_all = set()
-            for sb, t in rel:
-                for t2 in body.succs(sb):
-                    if t2 != t:
-                        pass
-            # remove the complementary edges' targets: walk the graph where, at each guard block, only the non-guarding successors are followed
-            guards = {}
-            for sb, t in rel:
-                guards.setdefault(sb, set()).add(t)
-            removed = [(sb, t) for sb, ts in guards.items() for t in ts]
-            r = body.reachable(d.term.target, removed_edges=removed, removed_blocks=refill) if d.term.target is not None else set()
-            if bb in r:
-                unguarded.append(body.loc(bb, i))
+            removed = list(rel)
+            for v in outcomes:
+                rem_v = []
+                if v is not None:
+                    for sbb, si in res_switches:
+                        keep = enum_arm_target(si, v)
+                        rem_v += [(sbb, t2) for t2 in body.succs(sbb) if t2 != keep]
+                # is the Ok block reachable from the decoder (with that outcome) without crossing an edge on which the count is known non-zero?
+                # (constant bool flags are followed: `matches!(result, ..) && ..` goes through one)
+                r = reachable_ps(body, d.term.target, removed_edges=removed + rem_v, removed_blocks=refill) if d.term.target is not None else set()
+                if bb in r:
+                    unguarded.append(body.loc(bb, i))
+                    break
         key = RULE + '|%s|decoder-count-may-be-zero' % body.nkey
         rep.ob(RULE, bool(oks) and not unguarded, key, '%d Ok(count) exits after the decoder all exclude 0' % len(oks) if (oks and not unguarded) else
                'Ok(count) with a count produced by the brotli decoder is returned without excluding 0 (%s): when the source hands over few bytes per read the decoder '
